@@ -1,7 +1,6 @@
 (* C17 — proofs about model/CsvInfer.v: what one update guarantees, the header decision, and the closed
-   regression witnesses about the code before the repairs (Boolean words are not valid Int64/Float64, so the
-   candidate chain alone is not a join; an empty first-row field voted for "header").  The lattice theorems are in
-   CsvInferLattice.v. *)
+   regression witness about the code before the repair (Boolean words are not valid Int64/Float64, so the
+   candidate chain alone is not a join).  The lattice theorems are in CsvInferLattice.v. *)
 From Coq Require Import NArith ZArith List Bool Arith Lia Permutation.
 From GV Require Import model.Csv model.CsvInfer.
 Import ListNotations.
@@ -29,40 +28,46 @@ Qed.
 Lemma update_empty : forall c, update c [] = c.
 Proof. intros c. reflexivity. Qed.
 
-(* header decision: row 0 is taken as a header iff some NON-EMPTY field of it fails its column's candidate computed from
-   the other rows (an empty field is NULL for every type and does not vote) *)
+(* header decision (the documented rule): row 0 is taken as a header iff some field of it is not valid for its column's
+   type computed from the other rows; an empty field is valid for Utf8 only *)
 Lemma header_decision_spec : forall first rest s,
   infer_schema (first :: rest) = Some s ->
   col_types s = fold_left revalidate_row rest (fold_left update_row rest (repeat CBool (length first))) /\
   (has_header s = true <->
-   exists f c, In (f, c) (combine first (col_types s)) /\ f <> [] /\ is_valid c f = false).
+   exists f c, In (f, c) (combine first (col_types s)) /\ is_valid c f = false).
 Proof.
   intros first rest s H. unfold infer_schema in H. inversion H as [Hs]. clear H. cbn [col_types has_header].
   split; [reflexivity|].
   rewrite existsb_exists. split.
   - intros [[f c] [Hin Hv]]. exists f, c. split; [exact Hin|]. cbn [fst snd] in Hv.
-    apply andb_prop in Hv. destruct Hv as [He Hv]. split.
-    + intros ->. discriminate He.
-    + destruct (is_valid c f); [discriminate Hv|reflexivity].
-  - intros [f [c [Hin [Hne Hv]]]]. exists (f, c). split; [exact Hin|]. cbn [fst snd]. rewrite Hv.
-    destruct f; [contradiction|reflexivity].
+    destruct (is_valid c f); [discriminate Hv|reflexivity].
+  - intros [f [c [Hin Hv]]]. exists (f, c). split; [exact Hin|]. cbn [fst snd]. rewrite Hv. reflexivity.
 Qed.
 
 Example header_decision_sat :
   exists s, infer_schema [[[97]]; [[49]]]%N = Some s /\ has_header s = true /\ col_types s = [CInt].
 Proof. eexists. split; [reflexivity|]. split; reflexivity. Qed.
 
-(* a first row that reads as a data row (every non-empty field valid for its column's type) is not a header *)
-Lemma typed_first_row_not_header : forall first rest s,
+(* a first row every field of which parses as its column's type is not a header *)
+Lemma valid_first_row_not_header : forall first rest s,
   infer_schema (first :: rest) = Some s ->
-  (forall f c, In (f, c) (combine first (col_types s)) -> f = [] \/ is_valid c f = true) ->
+  (forall f c, In (f, c) (combine first (col_types s)) -> is_valid c f = true) ->
   has_header s = false.
 Proof.
   intros first rest s H Hall. destruct (header_decision_spec first rest s H) as [_ Hh].
   destruct (has_header s) eqn:E; [|reflexivity]. exfalso.
-  destruct (proj1 Hh eq_refl) as [f [c [Hin [Hne Hv]]]].
-  destruct (Hall f c Hin) as [He|Hval]; [contradiction|]. rewrite Hval in Hv. discriminate Hv.
+  destruct (proj1 Hh eq_refl) as [f [c [Hin Hv]]]. rewrite (Hall f c Hin) in Hv. discriminate Hv.
 Qed.
+
+(* the rule on empty fields: ",,\n1,m\n" (empty names: pinned by slt/csv/infer/empty_header_names.slt), ",2\n3,4\n"
+   (the empty string does not parse as Int64) and ",x\n,y\n" (nor as the Boolean of a column without values) have a
+   header; ",x\nz,y\n" (Utf8 accepts the empty string) has none *)
+Example header_empty_fields :
+  (exists s, infer_schema [[[]; []]; [[49]; [109]]]%N = Some s /\ has_header s = true /\ col_types s = [CInt; CUtf8]) /\
+  (exists s, infer_schema [[[]; [50]]; [[51]; [52]]]%N = Some s /\ has_header s = true /\ col_types s = [CInt; CInt]) /\
+  (exists s, infer_schema [[[]; [120]]; [[]; [121]]]%N = Some s /\ has_header s = true /\ col_types s = [CBool; CUtf8]) /\
+  (exists s, infer_schema [[[]; [120]]; [[122]; [121]]]%N = Some s /\ has_header s = false).
+Proof. repeat split; eexists; repeat split; reflexivity. Qed.
 
 (* ------------------------------------------------------------------ closed witnesses (regression) *)
 (* column values "t","1" vs "1","t": before the re-validation pass Int64 vs Utf8 (the inferred type depended on the
@@ -75,16 +80,4 @@ Proof.
   exists [[116]; [49]]%N, [[49]; [116]]%N. split; [apply perm_swap|].
   split; [vm_compute; discriminate|]. split; [|split; vm_compute; reflexivity].
   exists [116]%N. split; [left; reflexivity|]. split; [discriminate|]. vm_compute. reflexivity.
-Qed.
-
-(* ",2\n3,4\n": a headerless file whose first row has an empty field in an Int64 column was given a header (every
-   field of every row is empty or an Int64 literal); it no longer is *)
-Lemma header_null_first_row_old_refuted :
-  exists recs cs s, infer_schema_old recs = Some (true, cs) /\
-    Forall (fun r => Forall (fun f => f = [] \/ is_int f = true) r) recs /\
-    infer_schema recs = Some s /\ has_header s = false /\ col_types s = [CInt; CInt].
-Proof.
-  exists [[[]; [50]]; [[51]; [52]]]%N. eexists. eexists. split; [reflexivity|].
-  split; [repeat constructor; solve [left; reflexivity | right; vm_compute; reflexivity]|].
-  split; [reflexivity|]. split; reflexivity.
 Qed.
